@@ -143,6 +143,16 @@ Twelfth round (l) - the aftermath of a failed, refused or timed-out operation: t
 * **C15-l** (the decoded value of the previous message is kept after a failure outside the per-message try): a value that is not a message at all, directly followed by a valid message from a publisher that writes JSON text.
 * **C16-l** (a refused connect clears the transport's whole session dict): a further namespace is requested and refused (False / ConnectionRefusedError); the client's sessions on its other namespaces are read afterwards.
 * **C18-l** (the instrumentation drops its bookkeeping on any exception from a connect handler): an application connect handler that fails with something other than a refusal, after which that client goes away.
+
+Thirteenth round (m) - breakage that depends on a particular value or shape of application data or names (falsy values, empty containers, names with unusual characters). 8 of 18 missed at first, all reported after strengthening:
+
+* **C04-m / C11-m** (sessions are not removed from rooms with a falsy name when they end): the application puts accepted sessions into a room named 0, '' or 0.0 (C04: `rooms()` of an ended session must be empty; C11: room names incl. 0, '' and 0.0). (C03's domain excludes falsy room names - a falsy `to` means broadcast - so they are not used there.)
+* **C08-m** (a falsy CONNECT_ERROR payload is dropped): refusals now carry any JSON value ('', {}, false, a string, a list, nothing) and the connect_error handler's arguments are checked. (A bare number is not used: `4/a,0` reads as an ack id on the wire.)
+* **C09-m** (an event literally named '*' treated as registered, on the client): '*' is one of the event names the scripted server sends; the reference registry resolves it as an ordinary name without a handler of its own. Also reported by C13.
+* **C12-m** (a placeholder that refers to no attachment is passed through to the handler): a complete binary event with an out-of-range or non-integer placeholder index must not reach a handler.
+* **C16-m** (`save_session()` ignores a falsy session): the session is replaced by an empty one ("logout") and read again.
+* **C18-m** (the instrumented emit wrapper collapses falsy payloads): application emits carry 0, '', [], {}, False and b'' as well.
+* **C19-m** (the simple client strips a trailing slash from its namespace): namespaces '/chat/' and '/a/b/'; a failed initial connect() to a server that accepts the namespace is now a violation, not a harness fault.
 """
 
 
